@@ -39,6 +39,7 @@ def run(chk: Check, proj: Project) -> None:
     s3(chk, proj, m)
     s4(chk, proj, m)
     s5_css_forms(chk, proj, m)
+    s6_defined_is_not_none(chk, proj, m)
 
 
 def s5_css_forms(chk: Check, proj: Project, m) -> None:
@@ -447,6 +448,33 @@ def s3(chk: Check, proj: Project, m) -> None:
     rm = [c for c in calls(ga, "_resolve_media")]
     okr = bool(rm) and norm(rm[0].args[0]) == norm(loop.target) if loop is not None and rm else False
     chk.ob("S3", "component_media:_get_comp_cls_attr:resolves-the-base", m.loc(rm[0]) if rm else m.loc(ga), okr, "each class's files are resolved relative to THAT class")
+
+
+def s6_defined_is_not_none(chk: Check, proj: Project, m) -> None:
+    chk.rule("S6", "'the nearest class that DEFINES the asset' is judged by `is None` alone: the asset loader returns None only for an attribute that is not set - an empty or blank `js = \"\"` / `css = \"\\n\"` is a definition (the documented way for a subclass to switch an inherited asset off), so no return of the loader depends on the content's truthiness or on its stripped value")
+    f = m.func("_get_asset")
+    chk.analysed(f"{m.name}:_get_asset")
+    from ..astq import local_from
+    from ..cfg import flatten_conj, path_conditions
+
+    cv = local_from(f, lambda v: isinstance(v, ast.Call) and norm(v.func) == "getattr" and len(v.args) >= 2)
+    if cv is None:
+        raise AnalysisError("_get_asset: the local holding the inlined content was not found")
+    rets = [r for r in ast.walk(f) if isinstance(r, ast.Return)]
+    chk.floor("S6", len(rets), 1)
+    for r in rets:
+        bad = []
+        for e, pol in flatten_conj(path_conditions(r)):
+            if not any(isinstance(x, ast.Name) and x.id == cv for x in ast.walk(e)):
+                continue
+            if isinstance(e, ast.Compare) and len(e.ops) == 1 and isinstance(e.ops[0], (ast.Is, ast.IsNot)) and isinstance(e.comparators[0], ast.Constant) and e.comparators[0].value is None:
+                continue
+            bad.append(e)
+        drops = r.value is None or (isinstance(r.value, ast.Constant) and r.value.value is None) or (isinstance(r.value, ast.BoolOp) and any(isinstance(x, ast.Name) and x.id == cv for x in ast.walk(r.value)))
+        ok = not (bad and drops) and not (isinstance(r.value, ast.BoolOp) and drops)
+        chk.ob("S6", f"component_media:_get_asset:{short(r, 40)}:none-only-for-undefined", m.loc(r), ok,
+               "this return does not turn a defined (possibly empty) asset into None" if ok else
+               f"`{short(r)}` under `{short(bad[0]) if bad else short(r.value)}` reports a DEFINED but blank asset as not defined: a subclass that sets `js = \"\"` to switch its parent's script off looks like it defines neither member of the pair, the MRO walk skips it, and the subclass (and the page) carries the parent's JS / CSS")
 
 
 MANIFEST = {
